@@ -203,6 +203,9 @@ fn decide(c: &Case, tier: Tier, out: &mut CaseOut) -> Result<(), Fail> {
     if uses(&prog, |o| matches!(o, Op::Scope(_))) {
         out.class("with_scope");
     }
+    if prog.tasks.iter().any(|t| t.ops.windows(2).any(|w| matches!((&w[0], &w[1]), (Op::Scope(cs), Op::Join(j)) if !cs.contains(j)))) {
+        out.class("scope_body_joins_plain_thread");
+    }
     if uses(&prog, |o| matches!(o, Op::Tls(1))) {
         out.class("dtor_reads_other_tls");
     }
@@ -214,6 +217,11 @@ fn decide(c: &Case, tier: Tier, out: &mut CaseOut) -> Result<(), Fail> {
         evals += 1;
         if let Some(m) = l.monitor_failures.first() {
             return fail(format!("{how}: {m}"));
+        }
+        // these programs contain no assertions and no panicking operations: a panic is the runtime's own
+        // (e.g. a join that was woken before its target finished)
+        if let Some(crate::interp::Termination::Panic(m)) = &l.termination {
+            return fail(format!("{how}: the execution panicked: {m}"));
         }
         check_history(&prog, l).map_err(|m| (String::new(), format!("{how}: {m}")))
     };
